@@ -32,7 +32,8 @@ RULE = ("case = invalid-request class (%d classes covering every item of the sta
         " Also: fuzzed requests after histories with reshaping (any call ending in ValueError must leave the state untouched), exact zeros that are not samples as missing slicing values, degenerate fixed-point designations next to unknown rule names, and a twin object that never saw the rejected request (later behaviour must be identical)."
         " Round-4 classes: unknown strategy names together with an empty or out-of-range look-up / an emptied reference; strategy positionally."
         " Round-5 classes: grids with exchanged / reversed end points, unknown strategy names next to valid explicit fixed points, mixed ratio / absolute bounds in the fuzzed requests."
-        " Round-6 classes: tables with 1, 3 or 4 columns read through Weaver.from_csv (even and odd row counts).") % len(CLASSES)
+        " Round-6 classes: tables with 1, 3 or 4 columns read through Weaver.from_csv (even and odd row counts)."
+        " Round-8 classes: an oversampling factor below 2 on a Weaver holding one sample.") % len(CLASSES)
 REQUIRED_MONITORS = ["c20:" + c for c in CLASSES] + ["c20:state_snapshot", "c20:fuzzed_request", "c20:fuzzed_rejected", "c20:twin_continuation"]
 ASSUMPTIONS = ["out-of-range fixed-point INDICES are not exercised (outside the statement); empty look-ups only together with an unknown name"]
 NSHARDS = 16
@@ -139,8 +140,7 @@ def run_fuzz_case(ctx, kind_, idx):
                 call = lambda: wv.integral_match(**kw)
             before = snap(wv)
             ctx.judged()
-            ctx.monitor("c20:fuzzed_request"
-        " Round-8 classes: an oversampling factor below 2 on a Weaver holding one sample.")
+            ctx.monitor("c20:fuzzed_request")
             try:
                 call()
             except ValueError:
